@@ -516,91 +516,82 @@ Qed.
 (* ------------------------------------------------------------------ *)
 
 Lemma open_bin_open_at online isz nbytes nc fts fs :
-  open_bin online isz nbytes nc fts fs = fst (open_at online isz nbytes nbytes nc fts fs).
+  open_bin online isz nbytes nc fts fs = fst (open_at online isz nbytes nc fts fs).
 Proof.
   unfold open_bin, open_at.
   destruct (reader_ns online isz nbytes nc fts fs); try reflexivity.
   destruct (reader_ns online isz nbytes nc _ fs); reflexivity.
 Qed.
 
-(* OnlineReader.open whatever size the constructor cached: floor of the CURRENT size *)
-Lemma open_at_online isz cached cur nc fts fs :
-  isz_ok isz -> 1 <= nc -> isz * nc < 2 ^ 53 -> 1 <= cur < 2 ^ 53 ->
-  let k := cur / (isz * nc) in
-  let rw := negb (nc * k * isz =? cached) in
-  let fts' := if rw then Some (rl k fs) else fts in
-  open_at true isz cached cur nc fts fs = (Opened k nc fts' rw, fts').
+(* the second component of open_at (meta fileTimeSecs afterwards) when the open succeeds *)
+Lemma open_at_opened online isz cur nc fts fs k nc' f rw :
+  open_bin online isz cur nc fts fs = Opened k nc' f rw ->
+  open_at online isz cur nc fts fs = (Opened k nc' f rw, f).
 Proof.
-  intros Hisz Hnc Hinc Hnb k rw fts'.
-  assert (Hi1 : 1 <= isz) by (unfold isz_ok in Hisz; lia).
-  destruct (floor_frames isz cur nc Hnc Hi1 ltac:(lia)) as [[Hlo Hhi] Hk0]. fold k in Hlo, Hhi, Hk0.
-  unfold open_at, reader_ns. rewrite (ns_online_floor isz cur nc Hisz ltac:(lia) Hnc Hinc). fold k. fold rw.
-  replace (memmap_ok isz cur k nc) with true; [|symmetry; apply memmap_ok_spec; nia].
-  subst fts'. destruct rw; reflexivity.
+  unfold open_bin, open_at.
+  destruct (reader_ns online isz cur nc fts fs); try discriminate.
+  destruct (reader_ns online isz cur nc _ fs); try discriminate.
+  destruct (memmap_ok isz cur ns0 nc); try discriminate.
+  intros H. injection H as <- <- <- <-. reflexivity.
 Qed.
 
-(* Reader.open (offline): the exact truth.  The comparison uses the size cached by the
-   constructor; when it disagrees with the meta claim the duration comes from a fresh stat and
-   the floor of the current size is exposed; when it agrees, the claim ns0 is used as it is and
-   np.memmap checks it against the current file. *)
-Lemma open_at_offline isz cached cur nc t fs ns0 :
+(* OnlineReader.open: floor of the CURRENT size *)
+Lemma open_at_online isz cur nc fts fs :
+  isz_ok isz -> 1 <= nc -> isz * nc < 2 ^ 53 -> 1 <= cur < 2 ^ 53 ->
+  let k := cur / (isz * nc) in
+  let rw := negb (nc * k * isz =? cur) in
+  let fts' := if rw then Some (rl k fs) else fts in
+  open_at true isz cur nc fts fs = (Opened k nc fts' rw, fts').
+Proof.
+  intros Hisz Hnc Hinc Hnb k rw fts'. apply open_at_opened.
+  exact (open_online_floor isz cur nc fts fs Hisz Hnc Hinc Hnb).
+Qed.
+
+(* Reader.open (offline): floor of the CURRENT size as well (since repair aa7f63d the claim is
+   compared with a fresh stat) *)
+Lemma open_at_offline isz cur nc t fs ns0 :
   1 <= nc -> 1 <= isz -> 1 <= cur -> cur / (isz * nc) <= 2 ^ 50 -> fs_ok fs ->
   ns_meta (Some t) fs = NsOk ns0 ->
   let k := cur / (isz * nc) in
-  open_at false isz cached cur nc (Some t) fs =
-    if negb (nc * ns0 * isz =? cached)
-    then (Opened k nc (Some (rl k fs)) true, Some (rl k fs))
-    else (if memmap_ok isz cur ns0 nc then Opened ns0 nc (Some t) false else MmapError, Some t).
+  let rw := negb (nc * ns0 * isz =? cur) in
+  let fts' := if rw then Some (rl k fs) else Some t in
+  open_at false isz cur nc (Some t) fs = (Opened k nc fts' rw, fts').
 Proof.
-  intros Hnc Hisz Hnb Hk Hfs Hns0 k.
-  destruct (floor_frames isz cur nc Hnc Hisz ltac:(lia)) as [[Hlo Hhi] Hk0]. fold k in Hlo, Hhi, Hk0.
-  unfold open_at, reader_ns. rewrite Hns0.
-  destruct (negb (nc * ns0 * isz =? cached)) eqn:Erw.
-  - unfold rl. fold k. rewrite (ns_meta_round_trip k fs ltac:(lia) Hfs).
-    replace (memmap_ok isz cur k nc) with true; [reflexivity|].
-    symmetry. apply memmap_ok_spec. nia.
-  - rewrite Hns0. reflexivity.
+  intros Hnc Hisz Hnb Hk Hfs Hns0 k rw fts'. apply open_at_opened.
+  exact (open_offline_floor isz cur nc t fs ns0 Hnc Hisz Hnb Hk Hfs Hns0).
 Qed.
 
-(* consequences of the cached comparison for the offline Reader, as concrete laws *)
-Lemma open_at_offline_stale_grow isz cached cur nc t fs ns0 :
-  1 <= nc -> 1 <= isz -> 0 <= ns0 -> ns_meta (Some t) fs = NsOk ns0 ->
-  nc * ns0 * isz = cached -> 1 <= cached <= cur ->
-  open_at false isz cached cur nc (Some t) fs = (Opened ns0 nc (Some t) false, Some t).
-Proof.
-  intros Hnc Hisz Hns Hns0 Hc Hcur. unfold open_at, reader_ns. rewrite Hns0.
-  replace (nc * ns0 * isz =? cached) with true by (symmetry; apply Z.eqb_eq; exact Hc).
-  cbn [negb]. rewrite Hns0.
-  replace (memmap_ok isz cur ns0 nc) with true; [reflexivity|].
-  symmetry. apply memmap_ok_spec. nia.
-Qed.
+(* --- histories on one reader object --- *)
+(* sizes the file may take: at least one byte; OnlineReader: below 2^53; Reader: at most 2^50 frames *)
+Definition size_ok (online : bool) (isz nc n : Z) : Prop :=
+  if online then 1 <= n < 2 ^ 53 else 1 <= n /\ n / (isz * nc) <= 2 ^ 50.
 
-Lemma open_at_offline_stale_cut isz cached cur nc t fs ns0 :
-  1 <= nc -> ns_meta (Some t) fs = NsOk ns0 ->
-  nc * ns0 * isz = cached -> cur < cached ->
-  open_at false isz cached cur nc (Some t) fs = (MmapError, Some t).
-Proof.
-  intros Hnc Hns0 Hc Hcur. unfold open_at, reader_ns. rewrite Hns0.
-  replace (nc * ns0 * isz =? cached) with true by (symmetry; apply Z.eqb_eq; exact Hc).
-  cbn [negb]. rewrite Hns0.
-  replace (memmap_ok isz cur ns0 nc) with false; [reflexivity|].
-  symmetry. apply not_true_iff_false. rewrite memmap_ok_spec. nia.
-Qed.
+Definition op_ok (online : bool) (isz nc : Z) (o : op) : Prop :=
+  match o with OpResize n => size_ok online isz nc n | _ => True end.
 
-(* --- histories on an OnlineReader --- *)
-Definition op_ok (o : op) : Prop :=
-  match o with OpResize n => 1 <= n < 2 ^ 53 | _ => True end.
-
-(* what must hold of every snapshot of the history of an OnlineReader *)
-Definition online_snap_ok (isz nc : Z) (s : (Z * reader) * option outcome) : Prop :=
+(* what holds of every snapshot of a history, for both classes: every open attempt succeeds, maps
+   exactly the floor of the size the file has at that moment, and sr.ns then equals it *)
+Definition snap_ok (isz nc : Z) (s : (Z * reader) * option outcome) : Prop :=
   let '((cur, r), out) := s in
   let k := cur / (isz * nc) in
-  live_ns cur r = NsOk k /\
-  (forall o, out = Some o ->
-     r_mapped r = Some k /\ exists fts' rw, o = Opened k nc fts' rw /\ r_fts r = fts').
+  forall o, out = Some o ->
+    r_mapped r = Some k /\ live_ns cur r = NsOk k /\
+    exists fts' rw, o = Opened k nc fts' rw /\ r_fts r = fts'.
+
+(* what differs: OnlineReader.ns follows the file at every moment, also before any open and
+   between opens; Reader.ns is whatever the meta dictionary currently says *)
+Definition online_snap_ok (isz nc : Z) (s : (Z * reader) * option outcome) : Prop :=
+  let '((cur, r), _) := s in live_ns cur r = NsOk (cur / (isz * nc)).
+Definition offline_snap_ok (s : (Z * reader) * option outcome) : Prop :=
+  let '((cur, r), _) := s in live_ns cur r = ns_meta (r_fts r) (r_fs r).
 
 Definition online_inv (isz nc : Z) (w : Z * reader) : Prop :=
   r_online (snd w) = true /\ r_isz (snd w) = isz /\ r_nc (snd w) = nc /\ 1 <= fst w < 2 ^ 53.
+
+Definition offline_inv (isz nc : Z) (fs : b64) (w : Z * reader) : Prop :=
+  r_online (snd w) = false /\ r_isz (snd w) = isz /\ r_nc (snd w) = nc /\ r_fs (snd w) = fs /\
+  size_ok false isz nc (fst w) /\
+  exists t ns0, r_fts (snd w) = Some t /\ ns_meta (Some t) fs = NsOk ns0.
 
 Section OnlineHistory.
 Variables isz nc : Z.
@@ -618,32 +609,34 @@ Qed.
 
 Lemma do_open_online cur r : online_inv isz nc (cur, r) ->
   let '(r', out) := do_open cur r in
-  online_inv isz nc (cur, r') /\ online_snap_ok isz nc ((cur, r'), Some out).
+  online_inv isz nc (cur, r') /\ snap_ok isz nc ((cur, r'), Some out).
 Proof.
   intros [Ho [Hi [Hn Hc]]]. cbn [fst snd] in *. unfold do_open.
-  rewrite Ho, Hi, Hn. rewrite (open_at_online isz (r_cached r) cur nc (r_fts r) (r_fs r) Hisz Hnc Hinc Hc).
-  split.
-  - repeat split; cbn; auto; lia.
-  - unfold online_snap_ok. split.
-    + apply live_ns_online. repeat split; cbn; auto; lia.
-    + intros o Eo. injection Eo as <-. cbn. split; [reflexivity|]. eauto.
+  rewrite Ho, Hi, Hn. rewrite (open_at_online isz cur nc (r_fts r) (r_fs r) Hisz Hnc Hinc Hc).
+  assert (Hinv' : forall f m, online_inv isz nc (cur, mkReader true isz nc (r_fs r) f m))
+    by (intros; repeat split; cbn; auto; lia).
+  split; [apply Hinv'|].
+  intros o Eo. injection Eo as <-. cbn [r_mapped r_fts]. split; [reflexivity|].
+  split; [apply live_ns_online, Hinv'|]. eauto.
 Qed.
 
-Lemma step_online w o : online_inv isz nc w -> op_ok o ->
-  online_inv isz nc (fst (step w o)) /\ online_snap_ok isz nc (step w o).
+Lemma step_online w o : online_inv isz nc w -> op_ok true isz nc o ->
+  online_inv isz nc (fst (step w o)) /\ snap_ok isz nc (step w o) /\ online_snap_ok isz nc (step w o).
 Proof.
   intros Hinv Hop. destruct w as [cur r]. destruct o as [n| |]; cbn [step].
   - assert (Hinv' : online_inv isz nc (n, r)).
     { destruct Hinv as [Ho [Hi [Hn _]]]. repeat split; cbn in *; auto; lia. }
-    split; [exact Hinv'|]. split; [apply live_ns_online; assumption|]. intros o E. discriminate.
-  - pose proof (do_open_online cur r Hinv) as H. destruct (do_open cur r) as [r' out]. exact H.
+    split; [exact Hinv'|]. split; [intros o E; discriminate|]. apply live_ns_online; assumption.
+  - pose proof (do_open_online cur r Hinv) as H. destruct (do_open cur r) as [r' out].
+    destruct H as [H1 H2]. split; [exact H1|]. split; [exact H2|]. apply live_ns_online; exact H1.
   - destruct (r_mapped r) eqn:Em.
-    + split; [exact Hinv|]. split; [apply live_ns_online; assumption|]. intros o E. discriminate.
-    + pose proof (do_open_online cur r Hinv) as H. destruct (do_open cur r) as [r' out]. exact H.
+    + split; [exact Hinv|]. split; [intros o E; discriminate|]. apply live_ns_online; assumption.
+    + pose proof (do_open_online cur r Hinv) as H. destruct (do_open cur r) as [r' out].
+      destruct H as [H1 H2]. split; [exact H1|]. split; [exact H2|]. apply live_ns_online; exact H1.
 Qed.
 
-Lemma exec_online ops : forall w, online_inv isz nc w -> Forall op_ok ops ->
-  Forall (online_snap_ok isz nc) (exec w ops).
+Lemma exec_online ops : forall w, online_inv isz nc w -> Forall (op_ok true isz nc) ops ->
+  Forall (fun s => snap_ok isz nc s /\ online_snap_ok isz nc s) (exec w ops).
 Proof.
   induction ops as [|o tl IH]; intros w Hinv Hops; cbn [exec]; [constructor|].
   inversion Hops as [|? ? Ho Htl]; subst.
@@ -653,18 +646,97 @@ Qed.
 
 (* every history of appends / cuts / opens / re-opens / context-manager entries on an OnlineReader *)
 Lemma history_online fs fts cur0 do_op ops :
-  1 <= cur0 < 2 ^ 53 -> Forall op_ok ops ->
-  Forall (online_snap_ok isz nc) (history true isz nc fs fts cur0 do_op ops).
+  size_ok true isz nc cur0 -> Forall (op_ok true isz nc) ops ->
+  Forall (fun s => snap_ok isz nc s /\ online_snap_ok isz nc s) (history true isz nc fs fts cur0 do_op ops).
 Proof.
-  intros Hc Hops. unfold history, construct.
-  set (r0 := mkReader true isz nc fs cur0 fts None).
+  intros Hc Hops. unfold history, construct. cbn [size_ok] in Hc.
+  set (r0 := mkReader true isz nc fs fts None).
   assert (Hinv0 : online_inv isz nc (cur0, r0)) by (repeat split; cbn; auto; lia).
   destruct do_op.
   - pose proof (step_online (cur0, r0) OpOpen Hinv0 I) as [Hinv' Hsnap].
     destruct (step (cur0, r0) OpOpen) as [w' out]. constructor; [exact Hsnap|].
     apply exec_online; assumption.
   - constructor.
-    + split; [apply live_ns_online; assumption|]. intros o E. discriminate.
+    + split; [intros o E; discriminate|]. apply live_ns_online; assumption.
     + apply exec_online; assumption.
 Qed.
 End OnlineHistory.
+
+Section OfflineHistory.
+Variables isz nc : Z.
+Variable fs : b64.
+Hypothesis Hisz : 1 <= isz.
+Hypothesis Hnc : 1 <= nc.
+Hypothesis Hfs : fs_ok fs.
+Set Default Proof Using "Hisz Hnc Hfs".
+
+Lemma live_ns_offline cur r : r_online r = false -> live_ns cur r = ns_meta (r_fts r) (r_fs r).
+Proof. intros Ho. unfold live_ns, reader_ns. now rewrite Ho. Qed.
+
+Lemma do_open_offline cur r : offline_inv isz nc fs (cur, r) ->
+  let '(r', out) := do_open cur r in
+  offline_inv isz nc fs (cur, r') /\ snap_ok isz nc ((cur, r'), Some out).
+Proof.
+  intros [Ho [Hi [Hn [Hf [[Hc1 Hc2] [t [ns0 [Ht Hns0]]]]]]]]. cbn [fst snd] in *. unfold do_open.
+  rewrite Ho, Hi, Hn, Hf, Ht.
+  rewrite (open_at_offline isz cur nc t fs ns0 Hnc Hisz Hc1 Hc2 Hfs Hns0).
+  set (k := cur / (isz * nc)).
+  destruct (floor_frames isz cur nc Hnc Hisz ltac:(lia)) as [_ Hk0]. fold k in Hk0.
+  (* whatever branch: the fileTimeSecs afterwards reads back as k samples *)
+  assert (Hread : ns_meta (if negb (nc * ns0 * isz =? cur) then Some (rl k fs) else Some t) fs = NsOk k).
+  { destruct (negb (nc * ns0 * isz =? cur)) eqn:E.
+    - unfold rl. apply ns_meta_round_trip; [fold k in Hc2; lia|exact Hfs].
+    - apply negb_false_iff, Z.eqb_eq in E. rewrite Hns0.
+      now rewrite (exact_frames isz cur nc ns0 Hnc Hisz E). }
+  split.
+  - repeat split; cbn [fst snd r_online r_isz r_nc r_fs r_fts]; auto.
+    destruct (negb (nc * ns0 * isz =? cur)); eauto.
+  - intros o Eo. injection Eo as <-. cbn [r_mapped r_fts]. split; [reflexivity|].
+    split; [|eauto]. unfold live_ns, reader_ns. cbn [r_online r_fts r_fs]. exact Hread.
+Qed.
+
+Lemma step_offline w o : offline_inv isz nc fs w -> op_ok false isz nc o ->
+  offline_inv isz nc fs (fst (step w o)) /\ snap_ok isz nc (step w o) /\ offline_snap_ok (step w o).
+Proof.
+  intros Hinv Hop. destruct w as [cur r]. destruct o as [n| |]; cbn [step].
+  - destruct Hinv as [Ho [Hi [Hn [Hf [_ Hex]]]]]. cbn [fst snd] in *.
+    split; [repeat split; cbn [fst snd]; auto; apply Hop|].
+    split; [intros o E; discriminate|]. apply live_ns_offline; exact Ho.
+  - pose proof (do_open_offline cur r Hinv) as H. destruct (do_open cur r) as [r' out].
+    destruct H as [H1 H2]. split; [exact H1|]. split; [exact H2|]. apply live_ns_offline. apply H1.
+  - destruct (r_mapped r) eqn:Em.
+    + split; [exact Hinv|]. split; [intros o E; discriminate|]. apply live_ns_offline. apply Hinv.
+    + pose proof (do_open_offline cur r Hinv) as H. destruct (do_open cur r) as [r' out].
+      destruct H as [H1 H2]. split; [exact H1|]. split; [exact H2|]. apply live_ns_offline. apply H1.
+Qed.
+
+Lemma exec_offline ops : forall w, offline_inv isz nc fs w -> Forall (op_ok false isz nc) ops ->
+  Forall (fun s => snap_ok isz nc s /\ offline_snap_ok s) (exec w ops).
+Proof.
+  induction ops as [|o tl IH]; intros w Hinv Hops; cbn [exec]; [constructor|].
+  inversion Hops as [|? ? Ho Htl]; subst.
+  pose proof (step_offline w o Hinv Ho) as [Hinv' Hsnap].
+  destruct (step w o) as [w' out]. constructor; [exact Hsnap|]. apply IH; assumption.
+Qed.
+
+(* every history on an offline Reader whose meta file has a convertible fileTimeSecs *)
+Lemma history_offline t ns0 cur0 do_op ops :
+  ns_meta (Some t) fs = NsOk ns0 ->
+  size_ok false isz nc cur0 -> Forall (op_ok false isz nc) ops ->
+  Forall (fun s => snap_ok isz nc s /\ offline_snap_ok s) (history false isz nc fs (Some t) cur0 do_op ops).
+Proof.
+  intros Hns0 Hc Hops. unfold history, construct.
+  set (r0 := mkReader false isz nc fs (Some t) None).
+  assert (Hinv0 : offline_inv isz nc fs (cur0, r0)).
+  { unfold offline_inv. cbn [fst snd r0 r_online r_isz r_nc r_fs r_fts].
+    split; [reflexivity|]. split; [reflexivity|]. split; [reflexivity|]. split; [reflexivity|].
+    split; [exact Hc|]. exists t, ns0. split; [reflexivity|exact Hns0]. }
+  destruct do_op.
+  - pose proof (step_offline (cur0, r0) OpOpen Hinv0 I) as [Hinv' Hsnap].
+    destruct (step (cur0, r0) OpOpen) as [w' out]. constructor; [exact Hsnap|].
+    apply exec_offline; assumption.
+  - constructor.
+    + split; [intros o E; discriminate|]. reflexivity.
+    + apply exec_offline; assumption.
+Qed.
+End OfflineHistory.
